@@ -441,8 +441,68 @@ def pipeline_body(ctx: Ctx, p: dict) -> None:
     ctx.case(p, nontrivial=bool(len(names) >= 3 and n_ok >= 2), classes=classes)
 
 
+
+# ---------------------------------------------------------------------------------------------------------------
+# band selection: whatever band names the two images carry, a pipeline the check accepts runs; one whose band both
+# images carry is accepted
+# ---------------------------------------------------------------------------------------------------------------
+BAND_SETS = [None, ["r", "g", "b"], ["g", "b", "n"], ["b", "r"]]
+
+
+def enumerate_bands(tier, shard, nshards):
+    n = 0
+    for lb in BAND_SETS:
+        for rb in BAND_SETS:
+            for band in (None, "r", "g", "n"):
+                for val in (False, True):
+                    for meas in (("sad", "census") if tier == "quick" else ("sad", "ssd", "census", "zncc")):
+                        if n % nshards == shard:
+                            yield {"left_bands": lb, "right_bands": rb, "band": band, "validation": val, "measure": meas}
+                        n += 1
+
+
+def bands_body(ctx: Ctx, p: dict) -> None:
+    from pandora.state_machine import PandoraMachine
+
+    rng = np.random.RandomState(3)
+    base = rng.randint(0, 20, (3, 9, 12)).astype(np.float32)
+
+    def img(bands, shift):
+        a = np.roll(base, shift, axis=2)
+        return a[0] if bands is None else a[:len(bands)]
+
+    lb, rb, band = p["left_bands"], p["right_bands"], p["band"]
+    l, r = drive.make_inputs(img(lb, 0), img(rb, 1), (-2, 1), bands=lb, right_bands=rb)
+    mc = {"matching_cost_method": p["measure"], "window_size": 3}
+    if band is not None:
+        mc["band"] = band
+    pipe = {"matching_cost": mc, "disparity": {"disparity_method": "wta"}}
+    if p["validation"]:
+        pipe["validation"] = {"validation_method": "cross_checking_accurate"}
+    legal = (band is None and lb is None and rb is None) or (band is not None and lb is not None and rb is not None
+                                                               and band in lb and band in rb)
+    tag = f"left bands={lb} right bands={rb} band={band} validation={p['validation']} measure={p['measure']}"
+    machine = PandoraMachine()
+    try:
+        checked = drive.check_pipeline(machine, copy.deepcopy(pipe), l, r)
+        accepted = True
+    except Exception as exc:  # noqa: BLE001
+        accepted = False
+        if legal:
+            ctx.violation("C01/legal-sequence-rejected", f"{tag}: {type(exc).__name__}: {str(exc)[:100]}")
+    if accepted:
+        try:
+            drive.run_checked(machine, l, r, checked)
+        except Exception as exc:  # noqa: BLE001
+            ctx.violation("C01/accepted-pipeline-fails-at-run", f"{tag}: {type(exc).__name__}: {str(exc)[:120]}")
+    ctx.judged += 1
+    ctx.case(p, nontrivial=bool(lb != rb and band is not None),
+             classes=["accepted" if accepted else "rejected"] + (["images-with-different-band-names"] if lb != rb else []))
+
+
 CHECKS = [
     Check("exhaustive", exhaustive_body, enumerate=enumerate_sequences, exhaustive=True,
           budget={"quick": (12, 0), "thorough": (16, 0)}),
+    Check("bands", bands_body, enumerate=enumerate_bands, exhaustive=True, budget={"quick": (8, 0), "thorough": (8, 0)}),
     Check("pipelines", pipeline_body, strategy=pipeline_cases, budget={"quick": (10, 25), "thorough": (16, 600)}),
 ]
